@@ -139,13 +139,14 @@ ASSUME_DEV = [
 
 def c01(pid, tier, replay):
     # key-emulating axes are keys too: their quiescence and their disconnect clean-up belong to C01
-    return device_check(pid, tier, replay, ["C01_"], keys_jobs(tier) + axis_jobs("akey", [["ABS_HAT0X"], ["ABS_RX"], ["ABS_GAS"]], tier),
-                        drivers=[devdrivers.random_keys, devdrivers.c08_batches], assumptions=ASSUME_DEV)
+    return device_check(pid, tier, replay, ["C01_"], keys_jobs(tier) + axis_jobs("akey", [["ABS_HAT0X"], ["ABS_RX"], ["ABS_GAS"]], tier) + akeymap_jobs(tier),
+                        drivers=[devdrivers.random_keys, devdrivers.c08_batches, devdrivers.akey_mapping_batches], assumptions=ASSUME_DEV)
 
 
 def c02(pid, tier, replay):
-    return device_check(pid, tier, replay, ["C02_"], keys_jobs(tier),
-                        drivers=[devdrivers.random_keys], assumptions=ASSUME_DEV)
+    # an axis emulating a key is a key: its Note Off is pinned to its Note On the same way (C08_Pinned, C08_Off)
+    return device_check(pid, tier, replay, ["C02_", "C08_Pinned", "C08_Off"], keys_jobs(tier) + akeymap_jobs(tier),
+                        drivers=[devdrivers.random_keys, devdrivers.akey_mapping_batches], assumptions=ASSUME_DEV)
 
 
 def c03(pid, tier, replay):
@@ -202,6 +203,11 @@ def axis_jobs(variant, axsets, tier, **kw):
     return [J(variant, Variant=variant, AxSet=set(a), OctB=1, ChanB=1, **kw) for a in axsets]
 
 
+def akeymap_jobs(tier):
+    return [J("akeymap", Variant="akeymap", AxSet={"ABS_HAT0X"}, OctB=1, ChanB=0),
+            J("akeymap", Variant="akeymap", AxSet={"ABS_Z"}, OctB=1, ChanB=0)]
+
+
 def c05(pid, tier, replay):
     def boundary(seed, t):
         return with_toml(devdrivers.c05_batches(seed, t))
@@ -222,15 +228,16 @@ def c06(pid, tier, replay):
 
 
 def c07(pid, tier, replay):
-    jobs = [J("bidi", Variant="bidi", AxSet={"ABS_X", "ABS_Y"}, TapActions=False)]
+    jobs = [J("bidi", Variant="bidi", AxSet={"ABS_X", "ABS_Y"}, TapActions=False),
+            J("bidi", Variant="bidi", AxSet={"ABS_Z"}, TapActions=False)]
     return device_check(pid, tier, replay, ["C07_"], jobs, drivers=[devdrivers.c07_batches], assumptions=ASSUME_DEV)
 
 
 def c08(pid, tier, replay):
     sets = [["ABS_HAT0X"], ["ABS_Z"], ["ABS_RX"], ["ABS_GAS"], ["ABS_HAT0X", "ABS_RX"]]
-    jobs = axis_jobs("akey", sets, tier, cfgmode="toml")
+    jobs = axis_jobs("akey", sets, tier, cfgmode="toml") + akeymap_jobs(tier)
     def drv(seed, t):
-        return with_toml(devdrivers.c08_batches(seed, t))
+        return with_toml(devdrivers.c08_batches(seed, t) + devdrivers.akey_mapping_batches(seed, t))
     return device_check(pid, tier, replay, ["C08_", "C01_"], jobs, drivers=[drv], assumptions=ASSUME_DEV[:2] + [
         "configurations are rendered as TOML and parsed by the real config.ParseData (the anchor includes parser.go:261-290)"])
 
